@@ -447,6 +447,30 @@ func (w *rpcWorld) blockTime(h func(body string) (int, string, any), multi *Mult
 	return c
 }
 
+// getSlot / getFirstAvailableBlock (JSON-RPC only): the newest / oldest archived slot of the loaded epochs
+func (w *rpcWorld) edgeSlot(h func(body string) (int, string, any), method string) rpcCall {
+	c := rpcCall{Op: method, Proto: "json", Slot: -1, Sigs: []int{}}
+	_, out, p := h(fmt.Sprintf(`{"jsonrpc":"2.0","id":1,"method":"%s","params":[]}`, method))
+	if p != nil {
+		c.Status, c.Detail = "panic", fmt.Sprint(p)
+		return c
+	}
+	var resp struct {
+		Result *int64         `json:"result"`
+		Error  map[string]any `json:"error"`
+	}
+	if err := json.Unmarshal([]byte(out), &resp); err != nil {
+		c.Status = "error"
+	} else if resp.Error != nil {
+		c.Status, c.Detail = rpcStatusFromJSONError(resp.Error)
+	} else if resp.Result == nil {
+		c.Status = "notfound"
+	} else {
+		c.Status, c.Slot = "ok", *resp.Result
+	}
+	return c
+}
+
 // getNode: Epoch.GetNodeByCid for a CID of epoch i (stored: section index >= 0) or an absent CID
 func (w *rpcWorld) getNode(i int, c cid.Cid, section int, alias bool) rpcCall {
 	call := rpcCall{Op: "getNode", Proto: "epoch", Slot: int64(w.eps[i].built.Spec.Epoch), Sig: section, Sigs: []int{}, Alias: alias}
@@ -531,6 +555,7 @@ func TestVerifC02(t *testing.T) {
 					}
 				}
 			}
+			o.Calls = append(o.Calls, w.edgeSlot(h, "getSlot"), w.edgeSlot(h, "getFirstAvailableBlock"))
 			out.Emit(o)
 		}
 		w.close()
